@@ -144,7 +144,7 @@ func genCase(t *rapid.T) replyCase {
 	}
 	switch rapid.IntRange(0, 3).Draw(t, "device") {
 	case 1:
-		cfg.Devices = []hook.DeviceCfg{{Name: "Alpha", Serial: call.Serial, HasAddr: true, IP: [4]byte{10, 1, 2, 3}, Port: gen.Port(t, "cport"), Protocol: rapid.SampledFrom([]string{"udp", "tcp"}).Draw(t, "proto"), TZ: gen.DeviceTZ(t, "tz"), ViaNew: rapid.Bool().Draw(t, "via_new")}}
+		cfg.Devices = []hook.DeviceCfg{{Name: "Alpha", Serial: call.Serial, HasAddr: true, IP: [4]byte{10, 1, 2, 3}, Port: gen.Port(t, "cport"), Protocol: rapid.SampledFrom([]string{"udp", "tcp"}).Draw(t, "proto"), TZ: gen.DeviceTZ(t, "tz"), ViaNew: rapid.Bool().Draw(t, "via_new"), Doors: gen.Doors(t, "doors")}}
 	case 2:
 		cfg.Devices = []hook.DeviceCfg{{Name: "Beta", Serial: call.Serial, TZ: gen.DeviceTZ(t, "tz"), ViaNew: rapid.Bool().Draw(t, "via_new")}}
 	case 3:
